@@ -631,14 +631,12 @@ func (x *zvC04Explorer) run(hist []zvC04Op, count bool, wantTrace bool) (canon s
 	e := zvC04NewEnv(x.universe, x.opts[:])
 	var last zvC04Op
 	last.Kind = "init"
-	var selBefore [2][]string
+	var before zvC04Snap
 	if p, what := vh.Try(func() {
 		e.Prologue()
 		for i, o := range hist {
 			if i == len(hist)-1 {
-				for pi := range e.Pfxs {
-					selBefore[pi], _ = e.Selection(pi)
-				}
+				before = e.Snap()
 			}
 			last = o
 			e.Apply(o)
@@ -649,7 +647,7 @@ func (x *zvC04Explorer) run(hist []zvC04Op, count bool, wantTrace bool) (canon s
 		kind := "other"
 		if last.Kind == "add" || last.Kind == "replace" || last.Kind == "remove" {
 			var after []string
-			for _, n := range selBefore[last.P] {
+			for _, n := range before.Sel[last.P] {
 				switch {
 				case n != zvC04PathNames[last.X]:
 					after = append(after, n)
@@ -667,8 +665,8 @@ func (x *zvC04Explorer) run(hist []zvC04Op, count bool, wantTrace bool) (canon s
 		if count {
 			r.Count("panic_"+kind, 1)
 		}
-		r.Violation(vh.Sig("clause", "panic", "kind", kind, "op", last.Kind), cs, "%s panicked: %s (selection of the prefix before the operation: %v)", last, what, selBefore[last.P])
-		return "panic:" + kind + ":" + last.String() + fmt.Sprint(selBefore), nil, false, "panic"
+		r.Violation(vh.Sig("clause", "panic", "kind", kind, "op", last.Kind), cs, "%s panicked: %s (selection of the prefix before the operation: %v)", last, what, before.Sel[last.P])
+		return "panic:" + kind + ":" + last.String() + fmt.Sprint(before.Sel), nil, false, "panic"
 	}
 	ok = true
 	var diffs []zvC04Diff
@@ -690,7 +688,7 @@ func (x *zvC04Explorer) run(hist []zvC04Op, count bool, wantTrace bool) (canon s
 	}
 
 	if count {
-		x.coverage(e, last, selBefore)
+		x.coverage(e, last, before)
 		h := sha256.Sum256([]byte(canon))
 		var hk [16]byte
 		copy(hk[:], h[:16])
@@ -760,25 +758,50 @@ func (x *zvC04Explorer) run(hist []zvC04Op, count bool, wantTrace bool) (canon s
 	return canon, enabled, ok, trace
 }
 
-// coverage bumps the vacuity counters for the transition that just ran.
-func (x *zvC04Explorer) coverage(e *zvC04Env, last zvC04Op, selBefore [2][]string) {
+// zvC04Snap is what the coverage counters need to know about the state before
+// the last operation.
+type zvC04Snap struct {
+	Sel  [2][]string
+	Ecmp [2]uint
+	Reg  []bool
+}
+
+func (e *zvC04Env) Snap() zvC04Snap {
+	var s zvC04Snap
+	for pi := range e.Pfxs {
+		s.Sel[pi], s.Ecmp[pi] = e.Selection(pi)
+	}
+	s.Reg = append([]bool{}, e.Reg...)
+	return s
+}
+
+// coverage bumps the vacuity counters for the transition that just ran. The
+// REQUIRED counters describe the scenario (operations issued, Loc-RIB
+// selections before/after as observed through Get, harness-side registration
+// flags); they do not depend on which calls the Loc-RIB chose to deliver, so
+// that a defective Loc-RIB yields a violation and not a "vacuous run".
+// The call_* counters are informative only.
+func (x *zvC04Explorer) coverage(e *zvC04Env, last zvC04Op, before zvC04Snap) {
 	r := x.r
 	r.Count("op_"+last.Kind, 1)
-	for ci, cl := range e.Clients {
+	ribOp := last.Kind == "add" || last.Kind == "remove" || last.Kind == "replace"
+	after := e.Snap()
+	for ci := range e.Clients {
 		for _, c := range e.LastCalls[ci] {
 			r.Count("call_"+c.Kind, 1)
 		}
-		_ = cl
+		if last.Kind == "dispose" && before.Reg[ci] {
+			r.Count("dispose_with_registered_client", 1)
+		}
 		if !e.Reg[ci] {
-			if e.EverReg[ci] && (last.Kind == "add" || last.Kind == "remove" || last.Kind == "replace") {
+			if e.EverReg[ci] && ribOp {
 				r.Count("rib_change_while_unregistered_after_registration", 1)
 			}
 			continue
 		}
 		o := e.Opts[ci]
 		for pi := range e.Pfxs {
-			sel, ecmp := e.Selection(pi)
-			adm := zvC04Admitted(sel, ecmp, o)
+			sel, ecmp := after.Sel[pi], after.Ecmp[pi]
 			switch o.Kind {
 			case "best":
 				if len(sel) > 1 {
@@ -799,38 +822,30 @@ func (x *zvC04Explorer) coverage(e *zvC04Env, last zvC04Op, selBefore [2][]strin
 					r.Count("max_short", 1)
 				}
 			}
-			_ = adm
 		}
-		// window movement that is not the operand itself
-		switch last.Kind {
-		case "add", "remove", "replace":
-			for _, c := range e.LastCalls[ci] {
-				if c.Kind == "remove" && len(c.Paths) == 1 {
-					sel, _ := e.Selection(last.P)
-					if zvC04Contains(sel, c.Paths[0]) {
-						r.Count("removal_of_path_still_in_rib", 1) // fell out of the window
-					}
-				}
-				if c.Kind == "add" && len(c.Paths) == 1 && zvC04Contains(selBefore[last.P], c.Paths[0]) {
-					r.Count("addition_of_path_already_in_rib", 1) // moved into the window
+		switch {
+		case ribOp && before.Reg[ci]:
+			// window movement of a path that is not leaving/entering the Loc-RIB
+			admB := zvC04Admitted(before.Sel[last.P], before.Ecmp[last.P], o)
+			admA := zvC04Admitted(after.Sel[last.P], after.Ecmp[last.P], o)
+			for _, n := range admB {
+				if !zvC04Contains(admA, n) && zvC04Contains(after.Sel[last.P], n) {
+					r.Count("window_pushes_out_path_still_in_rib", 1)
 				}
 			}
-		case "register":
-			if last.C == ci {
-				if len(e.Clients[ci].Have) > 0 {
-					r.Count("register_on_nonempty_rib", 1)
-				} else {
-					r.Count("register_on_empty_rib", 1)
+			for _, n := range admA {
+				if !zvC04Contains(admB, n) && zvC04Contains(before.Sel[last.P], n) {
+					r.Count("window_pulls_in_path_already_in_rib", 1)
 				}
 			}
-		}
-	}
-	if last.Kind == "dispose" {
-		for ci := range e.Clients {
-			for _, c := range e.LastCalls[ci] {
-				if c.Kind == "dispose" {
-					r.Count("dispose_delivered", 1)
-				}
+			if o.Kind == "ecmp" && before.Ecmp[last.P] != after.Ecmp[last.P] && before.Ecmp[last.P] > 0 && after.Ecmp[last.P] > 0 {
+				r.Count("ecmp_count_changes_under_registered_client", 1)
+			}
+		case last.Kind == "register" && last.C == ci:
+			if len(after.Sel[0])+len(after.Sel[1]) > 0 {
+				r.Count("register_on_nonempty_rib", 1)
+			} else {
+				r.Count("register_on_empty_rib", 1)
 			}
 		}
 	}
@@ -838,11 +853,10 @@ func (x *zvC04Explorer) coverage(e *zvC04Env, last zvC04Op, selBefore [2][]strin
 
 var zvC04Required = []string{
 	"op_add", "op_remove", "op_replace", "op_register", "op_unregister", "op_refresh", "op_dispose",
-	"call_add", "call_dump", "call_remove", "call_refresh", "call_eor", "call_dispose",
 	"best_truncates", "ecmp_multi", "ecmp_multi_truncates", "max_truncates", "max_short",
-	"removal_of_path_still_in_rib", "addition_of_path_already_in_rib",
+	"window_pushes_out_path_still_in_rib", "window_pulls_in_path_already_in_rib", "ecmp_count_changes_under_registered_client",
 	"register_on_nonempty_rib", "register_on_empty_rib",
-	"rib_change_while_unregistered_after_registration", "dispose_delivered",
+	"rib_change_while_unregistered_after_registration", "dispose_with_registered_client",
 }
 
 func (x *zvC04Explorer) explore(maxDepth int) (int, int, bool) {
